@@ -33,7 +33,15 @@ const (
 	optMaxSteps                     // WithRuntimeMaxSteps(small): the run fails with ErrExceedMaxSteps
 	optCtxHandlers                  // the context already carries handlers (callbacks.InitCallbacks), the SAME parent context for every call
 	optShared                       // option VALUES built once per object and handed to every call with this bit: the same Option structs, NodePaths, handler and option slices
+	optBadPath                      // one more lambda option, designated to a node that does not exist (inside the deepest nested graph where there is one): the call fails before anything runs
 )
+
+// spare copies a slice into one with spare capacity.
+func spare[T any](xs []T) []T {
+	out := make([]T, len(xs), len(xs)+4)
+	copy(out, xs)
+	return out
+}
 
 // withShared puts the object's shared option values in front of the call's own options.
 // With no own options the shared slice itself is passed (same backing array for every call).
